@@ -173,7 +173,10 @@ def gen_market(rnd, ndays=22, warm=3, n_stocks=None, with_future=None, opts=None
                 bars[i] = (d14(dd), o, c, max(o, c), min(o, c), v, v * c * mult, float(round(prev * 1.1)), float(round(prev * 0.9)), st, prev_st, 500.0)
                 prev = c
                 prev_st = st
-            S["futures"].append({"id": oid, "under": under, "mult": mult, "bars": bars, "expire": None if exp_i is None else cal[exp_i],
+            exp_date = None if exp_i is None else cal[exp_i]
+            if exp_i is not None and exp_i + 1 < len(cal) and (cal[exp_i + 1] - cal[exp_i]).days > 1 and rnd.random() < 0.6:
+                exp_date = cal[exp_i] + datetime.timedelta(days=1)      # a maturity date that is not a trading day (the last bar is the trading day before it)
+            S["futures"].append({"id": oid, "under": under, "mult": mult, "bars": bars, "expire": exp_date,
                                  "info": {"underlying_symbol": under,
                                           "close_commission_ratio": [0.0001, 2.0, 0.0001][k], "close_commission_today_ratio": [0.0003, 6.0, 0.0003][k],
                                           "commission_type": ["by_money", "by_volume", "by_money"][k], "open_commission_ratio": [0.0001, 2.0, 0.0001][k],
